@@ -116,14 +116,14 @@ def r1_r2(ck, F):
             ck.bad("C12.R1", "reload == modify(|v| *v = new)", where(rl.raw["sp"]), "reload does not go through modify with an assignment to the locked value")
 
 
-def r3(ck, F):
+def r3(ck, F, rid="C12.R3"):
     adt = F.adts.get(RL + "Subscriber")
-    if ck.anchor("C12.R3", "reload::Subscriber", adt):
+    if ck.anchor(rid, "reload::Subscriber", adt):
         fields = [(f["name"], f["ty"]) for f in adt["variants"][0]["fields"]]
         if len(fields) == 1 and "RwLock<" in fields[0][1] and fields[0][1].startswith(("alloc::sync::Arc<", "std::sync::Arc<")):
-            ck.ok("C12.R3", "reload::Subscriber holds only Arc<RwLock<T>>", detail=fields)
+            ck.ok(rid, "reload::Subscriber holds only Arc<RwLock<T>>", detail=fields)
         else:
-            ck.bad("C12.R3", "reload::Subscriber holds only Arc<RwLock<T>>", adt["span"], "fields %s: a cached copy of the inner value could go stale" % fields)
+            ck.bad(rid, "reload::Subscriber holds only Arc<RwLock<T>>", adt["span"], "fields %s: a cached copy of the inner value could go stale" % fields)
     degraded = {"register_callsite": "sometimes()", "callsite_enabled": "sometimes()", "max_level_hint": "Option::None{}"}
     for tr in (SUBSCRIBE, FILTER):
         for imp in [i for i in F.impls if i.get("trait") == tr and i["self_ty"].startswith(RL + "Subscriber<")]:
@@ -144,9 +144,9 @@ def r3(ck, F):
                         if show(p.ret) != degraded[m]:
                             problems.append("on a poisoned lock returns %s, expected %s (never a definitive answer)" % (show(p.ret), degraded[m]))
                 if problems:
-                    ck.bad("C12.R3", key, where(b.raw["sp"]), "; ".join(problems), fn=path)
+                    ck.bad(rid, key, where(b.raw["sp"]), "; ".join(problems), fn=path)
                 else:
-                    ck.ok("C12.R3", key, fn=path)
+                    ck.ok(rid, key, fn=path)
 
 
 def r4(ck, F):
